@@ -1640,6 +1640,15 @@ pub fn gen_c20(out: &mut Out, rng: &mut Rng, thorough: bool) {
                     }
                 }
             }
+            // a write-single-coil acknowledgement whose state word is neither 0x0000 nor 0xFF00 is
+            // no reply at all, whatever was written
+            for b in [false, true] {
+                for w in [0x00FFu16, 0x0001, 0x1234, 0xFF01, 0xFFFF, 0x0100] {
+                    let a = rng.u16();
+                    let pdu = [0x05, (a >> 8) as u8, a as u8, (w >> 8) as u8, w as u8];
+                    monitor_line(out, &format!("{head} | typed {} r=d{}", TypedOp::Wsc(a, b).tok(), hex_raw(&frame(kind, 0, unit, &pdu))));
+                }
+            }
             if kind == "tcp" {
                 illformed_typed_replies(out, rng, &head, kind, unit, if thorough { 600 } else { 150 });
             }
